@@ -30,6 +30,7 @@ RULE = (
 RULE += '; modification attempts also go around __setattr__ (object.__setattr__, vars())'
 RULE += "; other libraries' sentinels as predicate arguments; __weakref__ / __dict__ / weakref.ref probes"
 RULE += '; the Missing type as predicate argument; exception instances as fallbacks'
+RULE += '; when_missing with the fallback by keyword; ordinary leaves judged after copy / deepcopy / pickle'
 LEVEL_TEXT = (
     "Identity oracle: every position that held MISSING before copy/deepcopy/pickle must hold the very same object "
     "after; predicates must agree with identity for every generated value. The operation x protocol x shape(depth<=2) "
@@ -261,6 +262,11 @@ def compare(out: Outcome, path, a, b, opname):
             return
         for key in a:
             compare(out, f"{path}[{key!r}]", a[key], b[key], opname)
+        return
+    # any other value: it was not MISSING before, so it is not MISSING afterwards - nor anything of another type (a look-alike,
+    # an object that claims equality with everything, a falsy value stays what it is)
+    if b is MISSING or type(b) is not type(a):
+        out.violate("identity", f"C20.identity/{'pickle' if opname.startswith('pickle') else opname}/ordinary-value-replaced", f"path={path} op={opname}: {a!r} became {b!r}")
 
 
 def walk_values(x, acc):
@@ -296,6 +302,10 @@ def check_predicates(out: Outcome, x):
         w = when_missing(x, sentinel)
         if (w is sentinel) != real or (not real and w is not x):
             out.violate("pred", "C20.pred/when_missing", repr(x))
+        # the fallback may be given by its documented name
+        w = when_missing(x, value=sentinel)
+        if (w is sentinel) != real or (not real and w is not x):
+            out.violate("pred", "C20.pred/when_missing/fallback-given-by-keyword", repr(x))
         # the fallback value is a VALUE, whatever it is: callables, classes, falsy objects, MISSING itself, the Missing type
         for fallback in _FALLBACKS:
             w = when_missing(x, fallback)
